@@ -96,12 +96,13 @@ func (c *Chain[I, O]) compile(ctx context.Context, option *graphCompileOptions) 
 // addEndIfNeeded add END edge of the chain/graph.
 // only run once when compiling.
 func (c *Chain[I, O]) addEndIfNeeded() error {
-	if c.hasEnd {
-		return nil
-	}
-
+	// the sticky error comes first: END may already have been added by an earlier Compile that failed later on
 	if c.err != nil {
 		return c.err
+	}
+
+	if c.hasEnd {
+		return nil
 	}
 
 	if len(c.preNodeKeys) == 0 {
